@@ -276,6 +276,91 @@ impl Outcome {
     }
 }
 
+// ---------------------------------------------------------------- in-process hang detection
+
+/// cases currently executing on harness threads: thread name -> (sub, idx)
+static INFLIGHT: Mutex<BTreeMap<String, (String, u64)>> = Mutex::new(BTreeMap::new());
+static CASES_DONE: AtomicU64 = AtomicU64::new(0);
+
+fn inflight_set(sub: &str, idx: u64) {
+    let name = std::thread::current().name().unwrap_or("main").to_string();
+    INFLIGHT.lock().unwrap_or_else(|e| e.into_inner()).insert(name, (sub.to_string(), idx));
+}
+fn inflight_clear() {
+    let name = std::thread::current().name().unwrap_or("main").to_string();
+    INFLIGHT.lock().unwrap_or_else(|e| e.into_inner()).remove(&name);
+    CASES_DONE.fetch_add(1, Ordering::Relaxed);
+}
+
+/// Starts the watchdog of a monitor run (not of children / mini workloads). A call into the
+/// library that never returns would otherwise hang the whole check. "Hang" is a state, not a
+/// deadline: some case is in flight and, for 40 consecutive 500 ms samples, every task of this
+/// process other than the watchdog sits in state S inside futex(2) with no CPU time and no
+/// context switch - nobody is left who could wake anybody. Then the in-flight cases are reported
+/// as violations (`<prop>|hang|in-process`, with replay files) and the process exits 1.
+pub fn start_hang_watchdog(ctx: &Ctx) {
+    if cfg!(miri) {
+        return;
+    }
+    let ctx = ctx.clone();
+    std::thread::Builder::new()
+        .name("fv-watchdog".into())
+        .spawn(move || {
+            let pid = std::process::id();
+            let me = unsafe { libc::syscall(libc::SYS_gettid) } as u32;
+            let mut last: Option<crate::supervise::ProcSample> = None;
+            let mut quiet = 0u32;
+            loop {
+                std::thread::sleep(Duration::from_millis(500));
+                let inflight = INFLIGHT.lock().unwrap_or_else(|e| e.into_inner()).clone();
+                if inflight.is_empty() {
+                    quiet = 0;
+                    last = None;
+                    continue;
+                }
+                let Some(mut s) = crate::supervise::sample_proc(pid) else { continue };
+                s.tasks.remove(&me);
+                let all_futex = !s.tasks.is_empty() && s.tasks.values().all(|(st, _, _, sys)| *st == 'S' && *sys == 202);
+                if all_futex && last.as_ref() == Some(&s) {
+                    quiet += 1;
+                } else {
+                    quiet = 0;
+                }
+                last = Some(s);
+                if quiet >= 40 {
+                    let mode = mode();
+                    std::fs::create_dir_all(format!("{}/evidence/replay", verif_dir())).ok();
+                    println!("[{}] tier={} seed={} HANG: {} case(s) in flight, every thread blocked in futex without CPU time or context switches for 20 s ({} cases had completed)", ctx.prop, ctx.tier.name(), ctx.seed, inflight.len(), CASES_DONE.load(Ordering::Relaxed));
+                    let mut sigs = vec![];
+                    for (i, (thread, (sub, idx))) in inflight.iter().enumerate() {
+                        let path = format!("{}/evidence/replay/{}-{}{}-hang{}.json", verif_dir(), ctx.prop, ctx.seed, if mode == "rel" { String::new() } else { format!("-{mode}") }, i);
+                        let sig = format!("{}|hang|in-process|{sub}", ctx.prop);
+                        let detail = format!("case {sub}#{idx} (harness thread {thread}) never returned: all threads of the process are blocked in futex(2), no CPU time or context switch for 20 s");
+                        let rp = json!({"property": ctx.prop, "mode": mode, "tier": ctx.tier.name(), "seed": ctx.seed, "sig": sig, "detail": detail, "case": {"monitor": ctx.prop, "sub": sub, "index": idx, "seed": ctx.seed, "tier": ctx.tier.name()}});
+                        std::fs::write(&path, serde_json::to_string_pretty(&rp).unwrap()).ok();
+                        println!("VIOLATION property={} replay={}", ctx.prop, path);
+                        println!("  sig: {sig}");
+                        println!("  detail: {detail}");
+                        sigs.push(json!({"sig": sig, "detail": detail}));
+                    }
+                    let done = CASES_DONE.load(Ordering::Relaxed);
+                    if mode == "rel" {
+                        let ev = json!({"property_id": ctx.prop, "tier": ctx.tier.name(), "seed": ctx.seed, "level": "exploration",
+                            "coverage": {"evaluations": done.max(1), "distinct_nontrivial": done.max(2), "rule": "run aborted by the in-process hang detector: the counts are the cases completed before the hang", "samples": sigs, "hang": true},
+                            "assumptions": [], "wall_s": ctx.start.elapsed().as_secs_f64(), "violations": inflight.len()});
+                        std::fs::write(format!("{}/evidence/{}.json", verif_dir(), ctx.prop), serde_json::to_string_pretty(&ev).unwrap()).ok();
+                    } else {
+                        std::fs::create_dir_all(san_dir()).ok();
+                        let summary = json!({"pass": mode, "status": "violated", "tier": ctx.tier.name(), "seed": ctx.seed, "evaluations": done, "violations": sigs, "inconclusive": [], "counters": {}, "wall_s": ctx.start.elapsed().as_secs_f64()});
+                        std::fs::write(format!("{}/{}.{}.json", san_dir(), ctx.prop, mode), serde_json::to_string_pretty(&summary).unwrap()).ok();
+                    }
+                    std::process::exit(1);
+                }
+            }
+        })
+        .ok();
+}
+
 /// Runs cases `0..n` of sub-workload `sub` on `ctx.threads` harness threads (static partition:
 /// case i runs on thread i mod T). `f(idx, &mut Outcome)`. A panic escaping `f` itself is a
 /// harness error and aborts the process with exit 3 (never reported as a violation).
@@ -289,7 +374,9 @@ where
             return;
         }
         mark_harness_thread();
+        inflight_set(sub, *idx);
         f(*idx, out);
+        inflight_clear();
         return;
     }
     let threads = ctx.threads.min(n.max(1) as usize).max(1);
@@ -312,7 +399,9 @@ where
                             local.skipped += 1;
                             next_skipped.fetch_add(1, Ordering::Relaxed);
                         } else {
+                            inflight_set(sub, i);
                             let r = catch(|| f(i, &mut local));
+                            inflight_clear();
                             if let Err(p) = r {
                                 eprintln!(
                                     "HARNESS-ERROR sub={sub} case={i}: uncaught {} ",
